@@ -242,7 +242,7 @@ func genAcc(r *gen.Rand) []string {
 		"\"a\\", "x;a=\"b\\", "\"\\\\", "\"a,b\\"}
 	var parts []string
 	for i := r.Intn(4); i >= 0; i-- {
-		parts = append(parts, gen.Pick(r, []string{"", " "})+gen.Pick(r, tok))
+		parts = append(parts, gen.Pick(r, []string{"", " ", "", " ", "\t", " \t"})+gen.Pick(r, tok)+gen.Pick(r, []string{"", "", "", " ", "\t"}))
 	}
 	h := strings.Join(parts, ",")
 	var offers []string
